@@ -544,20 +544,25 @@ func c16Threshold(c *vrep.Ctx) {
 	for i := 0; i < n; i++ {
 		pool = append(pool, files[i*len(files)/n])
 	}
-	ths := []float64{0.5, 0.8, 0.95}
+	// thresholds, and the threshold each classifier was BUILT with: License.Threshold is an exported
+	// field that callers set after New (the repository's own tests do), so "the classifier's
+	// threshold" is its current value
+	ths := []float64{0.5, 0.8, 0.95, 0.95, 0.9, 0.6}
+	built := []float64{0.5, 0.8, 0.95, 0.5, 0.8, 0.9}
 	var buf bytes.Buffer
 	if err := serializer.ArchiveLicenses(files, &buf); err != nil {
 		panic(err)
 	}
 	ls := make([]*lc.License, len(ths))
 	for i, t := range ths {
-		l, err := lc.New(t, lc.ArchiveBytes(buf.Bytes()))
+		l, err := lc.New(built[i], lc.ArchiveBytes(buf.Bytes()))
 		if err != nil {
 			panic(err)
 		}
+		l.Threshold = t
 		ls[i] = l
 	}
-	c.R.Rule = fmt.Sprintf("MultipleMatch never returns a match below the classifier's threshold: %d pool files x query kinds {exact, lightly edited (every 9th word replaced), heavily edited (every 4th), first half, two files concatenated, unrelated, two/three licenses each stretched by a block of 15/30/45%% foreign words (several weak candidates in one input)} x includeHeaders x thresholds %v; every returned confidence must be >= threshold and <= 1; non-trivial = queries that returned at least one match", len(pool), ths)
+	c.R.Rule = fmt.Sprintf("MultipleMatch never returns a match below the classifier's threshold: %d pool files x query kinds {exact, lightly edited (every 9th word replaced), heavily edited (every 4th), first half, two files concatenated, unrelated, two/three licenses each stretched by a block of 15/30/45%% foreign words (several weak candidates in one input)} x includeHeaders x thresholds %v (the last three set through the exported Threshold field on classifiers built with 0.5, 0.8, 0.9); every returned confidence must be >= threshold and <= 1; non-trivial = queries that returned at least one match", len(pool), ths)
 	body := func(r *vx.Run) {
 		fi := r.Choose(len(pool), "file")
 		kind := r.Choose(9, "kind")
@@ -614,7 +619,7 @@ func c16Threshold(c *vrep.Ctx) {
 				msg = fmt.Sprintf("match %s has confidence %v, threshold is %v", m.Name, m.Confidence, ths[ti])
 			}
 		}
-		r.Note = map[string]interface{}{"id": fmt.Sprintf("%s kind%d headers=%v T=%v", pool[fi], kind, hdr, ths[ti]), "msg": msg, "n": len(ms)}
+		r.Note = map[string]interface{}{"id": fmt.Sprintf("%s kind%d headers=%v T=%v(built %v)", pool[fi], kind, hdr, ths[ti], built[ti]), "msg": msg, "n": len(ms)}
 	}
 	c.Run(c.Explorer(0), body, func(r *vx.Run) {
 		id := r.Note["id"].(string)
